@@ -11,6 +11,7 @@
 #include <sys/socket.h>
 #include <sys/timerfd.h>
 #include <sys/wait.h>
+#include <time.h>
 #include <unistd.h>
 #include "vh.h"
 #include "threadpool/threadpool.h"
@@ -75,7 +76,7 @@ typedef struct reg_s {
 	tp_udata_t ud;
 	int	fd, peer;	/* fd registered; peer = other end (or -1 when closed) */
 	/* model */
-	int	m_reg, m_en, m_event, m_flags, m_ready, m_peer_closed;
+	int	m_reg, m_en, m_event, m_flags, m_ready, m_peer_closed, m_abst;
 	int	act;
 	int	cb_total, cb_window;
 } reg_t;
@@ -98,7 +99,7 @@ hist_desc(char *b, size_t n) {
 	int i; size_t o = 0;
 	for (i = 0; i < nsteps && o + 40 < n; i ++) {
 		if (S_ADD == hist[i].op)
-			o += (size_t)snprintf(b + o, n - o, "%sadd(%s,ev%d,fl%d)", i ? " " : "", idname[hist[i].id], hist[i].a, hist[i].b);
+			o += (size_t)snprintf(b + o, n - o, "%sadd(%s,ev%d,fl%d%s)", i ? " " : "", idname[hist[i].id], hist[i].a, hist[i].b & 0x7f, (hist[i].b & 0x80) ? ",abstime" : "");
 		else if (S_SETACT == hist[i].op)
 			o += (size_t)snprintf(b + o, n - o, "%ssetact(%s,%s)", i ? " " : "", idname[hist[i].id], actname[hist[i].a]);
 		else
@@ -231,15 +232,22 @@ do_drain(int id) {
 	r->m_ready = 0;
 }
 
-/* "programs exactly the equivalent interval ... one-shot or periodic": what the library handed to timerfd_settime() for
- * the flags of THIS call (3600 s; repeating iff neither ONESHOT nor DISPATCH) */
+/* "programs exactly the equivalent interval ... (relative or absolute, one-shot or periodic)": what the library handed to
+ * timerfd_settime() for the arguments of THIS call: 3600 s relative (repeating iff neither ONESHOT nor DISPATCH), or the
+ * absolute second abs_val - which only means that point in time on a CLOCK_REALTIME timer with TFD_TIMER_ABSTIME */
+static uint64_t abs_val;
 static void
-check_timer_program(int flags, const char *what) {
+check_timer_program(int flags, int abst, const char *what) {
 	long want_iv = (0 != (flags & (TP_F_ONESHOT | TP_F_DISPATCH))) ? 0 : 3600;
-	if (3600 != rec_spec.it_value.tv_sec || 0 != rec_spec.it_value.tv_nsec)
-		hfail("timer-value", "%s of a 3600 s timer programmed it_value = %ld s %ld ns", what, (long)rec_spec.it_value.tv_sec, (long)rec_spec.it_value.tv_nsec);
-	else if (want_iv != rec_spec.it_interval.tv_sec || 0 != rec_spec.it_interval.tv_nsec)
+	long want_v = abst ? (long)abs_val : 3600;
+	if (want_v != rec_spec.it_value.tv_sec || 0 != rec_spec.it_value.tv_nsec)
+		hfail("timer-value", "%s of a %s timer programmed it_value = %ld s %ld ns", what, abst ? "absolute" : "3600 s", (long)rec_spec.it_value.tv_sec, (long)rec_spec.it_value.tv_nsec);
+	else if (!abst && (want_iv != rec_spec.it_interval.tv_sec || 0 != rec_spec.it_interval.tv_nsec))
 		hfail("timer-interval", "%s with flags %#x programmed it_interval = %ld s, want %ld s", what, flags, (long)rec_spec.it_interval.tv_sec, want_iv);
+	else if ((0 != (rec_settime_flags & TFD_TIMER_ABSTIME)) != abst)
+		hfail("timer-abstime-flag", "%s of %s timer: timerfd_settime got TFD_TIMER_ABSTIME=%d", what, abst ? "an absolute" : "a relative", 0 != (rec_settime_flags & TFD_TIMER_ABSTIME));
+	else if (abst && CLOCK_REALTIME != rec_tfd_clock)
+		hfail("timer-clock", "%s of an absolute timer (wall-clock second %ld) programmed a timerfd that runs on clock %d, not CLOCK_REALTIME", what, want_v, rec_tfd_clock);
 }
 
 static void
@@ -271,15 +279,15 @@ apply_step(const step_t *s) {
 			break;
 		}
 		if (ID_T == s->id)
-			rc = tpt_ev_add_args(t0, TP_EV_TIMER, s->b, TP_FF_T_SEC, 3600, &r->ud);
+			rc = tpt_ev_add_args(t0, TP_EV_TIMER, (uint16_t)(s->b & 0x7f), TP_FF_T_SEC | ((s->b & 0x80) ? TP_FF_T_ABSTIME : 0), (s->b & 0x80) ? abs_val : 3600, &r->ud);
 		else
 			rc = tpt_ev_add_args2(t0, s->a, s->b, &r->ud);
 		if (0 != rc) {
 			hfail("add-refused", "well-formed registration refused rc=%d", rc);
 			break;
 		}
-		r->m_reg = 1; r->m_en = 1; r->m_event = s->a; r->m_flags = s->b;
-		if (ID_T == s->id) { r->m_ready = 0; check_timer_program(s->b, "add"); }
+		r->m_reg = 1; r->m_en = 1; r->m_event = s->a; r->m_flags = s->b & 0x7f; r->m_abst = (0 != (s->b & 0x80));
+		if (ID_T == s->id) { r->m_ready = 0; check_timer_program(r->m_flags, r->m_abst, "add"); }
 		break;
 	case S_ENABLE1:
 	case S_ENABLEF:
@@ -289,14 +297,14 @@ apply_step(const step_t *s) {
 			rc = tpt_ev_enable_args1(1, (uint16_t)r->m_event, &r->ud);
 		else
 			rc = tpt_ev_enable_args(1, (uint16_t)r->m_event, (uint16_t)r->m_flags,
-			    (ID_T == s->id) ? TP_FF_T_SEC : 0, (ID_T == s->id) ? 3600 : 0, &r->ud);
+			    (ID_T == s->id) ? (TP_FF_T_SEC | (r->m_abst ? TP_FF_T_ABSTIME : 0)) : 0, (ID_T == s->id) ? (r->m_abst ? abs_val : 3600) : 0, &r->ud);
 		if (0 != rc)
 			hfail("enable-refused", "enable of a registered event refused rc=%d", rc);
 		else {
 			r->m_en = 1;
 			if (ID_T == s->id) {
 				r->m_ready = 0; /* re-armed */
-				if (S_ENABLEF == s->op) check_timer_program(r->m_flags, "enable (with arguments)");
+				if (S_ENABLEF == s->op) check_timer_program(r->m_flags, r->m_abst, "enable (with arguments)");
 			}
 		}
 		break;
@@ -436,6 +444,7 @@ run_history(void) {
 	int p[2], sp[2], i, rc;
 
 	hist_failed = 0;
+	abs_val = (uint64_t)time(NULL) + 3600;
 	memset(R, 0, sizeof(R));
 	rec_tfd_last = -1;
 	tp_settings_def(&s);
@@ -696,6 +705,40 @@ enumerate_proc(int depth, int preg, int forked, int alive, int areg) {
 	}
 }
 
+/* histories of the timer alone, with the absolute form in the alphabet: add (three flag sets x relative/absolute, also
+ * over an existing timer), enable with arguments / without, disable, delete, the timer expires, two callback actions */
+static void
+enumerate_timer(int depth, int reg) {
+	static const int flagset[3] = { 0, TP_F_ONESHOT, TP_F_DISPATCH };
+	int f, ab, total;
+
+	if (depth > 0) {
+		nsteps = depth;
+		if (vh_begin("timer_history")) {
+			vh_set_describer(hist_desc);
+			run_history();
+			total = R[ID_T].cb_total;
+			if (total > 0 && !hist_failed)
+				vh_nontrivial();
+			vh_outcome(&total, sizeof(total));
+		}
+	}
+	if (depth == max_depth + 1)
+		return;
+	for (f = 0; f < 3; f ++) for (ab = 0; ab < 2; ab ++) {
+		PUSH(S_ADD, ID_T, TP_EV_TIMER, flagset[f] | (ab ? 0x80 : 0)); enumerate_timer(depth + 1, 1);
+	}
+	if (!reg)
+		return;
+	PUSH(S_ENABLEF, ID_T, 0, 0); enumerate_timer(depth + 1, 1);
+	PUSH(S_ENABLE1, ID_T, 0, 0); enumerate_timer(depth + 1, 1);
+	PUSH(S_DISABLE, ID_T, 0, 0); enumerate_timer(depth + 1, 1);
+	PUSH(S_DEL, ID_T, 0, 0); enumerate_timer(depth + 1, 0);
+	PUSH(S_FIRE, ID_T, 0, 0); enumerate_timer(depth + 1, 1);
+	PUSH(S_SETACT, ID_T, ACT_DISABLE_SELF, 0); enumerate_timer(depth + 1, 1);
+	PUSH(S_SETACT, ID_T, ACT_DEL_SELF, 0); enumerate_timer(depth + 1, 1);
+}
+
 int
 main(int argc, char **argv) {
 	abs_t a;
@@ -712,5 +755,6 @@ main(int argc, char **argv) {
 	memset(&a, 0, sizeof(a));
 	enumerate(0, a);
 	enumerate_proc(0, 0, 0, 0, 0);
+	enumerate_timer(0, 0);
 	return (vh_finish());
 }
